@@ -279,7 +279,7 @@ def leaveRegistry : List (String × String) := [
 def crossKind : Bool := true
 
 /-- `ChainedVisitor`: a member's SkipNode is the raiser's own (observed by `probe_chain_skip`; true with proposed fix C18-W8) -/
-def chainPersonalSkip : Bool := false
+def chainPersonalSkip : Bool := true
 
 def table : Table := { methods := methods, visit := visitDispatch, dispatchers := dispatchers, slots := slots, crossKind := crossKind }
 
